@@ -6,6 +6,9 @@
 //      for replaying solver counterexamples against the real headers.
 #pragma once
 #include <array>
+#include <limits>
+#include <cstring>
+#include <type_traits>
 #include <cstddef>
 #include <cstdint>
 extern "C" {
